@@ -78,6 +78,16 @@ package rules
 //	BE1  jwt.go        (preserving) (&jwt.Parser{}).ParseWithClaims(token, jwt.MapClaims{}, kf) → silent
 //	BE2  jwt.go        (preserving) own claims type with aud interface{}, exp/nbf float64 → silent
 //
+// Third pass (round-2 seeded change b, missed before, now caught by the provenance obligation of R-C06-5):
+//
+//	round-2 b basicauth.go  `credentials := strings.TrimSpace(string(credentialBytes))`     → R-C06-5 credentials compared are exactly the decoded bytes
+//	P2   basicauth.go  Match(strings.ToLower(userID), password)                           → same
+//	P3   basicauth.go  parseCredentials returns strings.TrimRight(parts[1], "\r\n")        → same (followed into the helper)
+//	P4   basicauth.go  credentialBytes = bytes.ReplaceAll(credentialBytes, []byte{0}, nil) → same
+//	P5   basicauth.go  password replaced by url.QueryUnescape(password) when it succeeds  → same
+//	PE1  basicauth.go  (preserving) slices/conversions through locals, strings.Cut inline, TrimSpace only in a condition, ToLower only in a log → silent
+//	PE2  basicauth.go  (preserving) req.Std().BasicAuth()                                 → silent
+//
 // Not caught (outside the decided clauses, see NotDecided): N1 verify rebuilds the canonical headers from
 // empty values; N2 getCanonicalQuery keeps only the first value of every parameter (both are caught by the
 // signer's known-answer tests).
@@ -128,7 +138,7 @@ func c06(c *core.Ctx) string {
 	c.Rule("R-C06-2", "algorithm pinning: every key function handed to jwt.Parse returns a key only on the edge where token.Method.Alg() equals the configured algorithm, and the key is not derived from the token; JWTValidator.Validate accepts only with the verdict of jwt.Parse; the claims container handed to the parser can hold every RFC 7519 form of aud/exp/nbf/iat (untyped Parse, a map, or a struct whose fields do not narrow them)")
 	c.Rule("R-C06-3", "signed body is the forwarded body: no code outside httpprot reads or replaces net/http.Request.Body of the request underlying an httpprot.Request (value of Std() / the embedded field, or a copy of it whose Body has not been re-assigned): after FetchPayload that body is drained and the payload is authoritative")
 	c.Rule("R-C06-4", "signature covers the parts: hashCanonicalRequest feeds method, path (in its wire/escaped form, never the decoded URL.Path), query, canonical headers, signed-header list and body hash into the digest; on verify the query comes from the request URL and the body hash never from a request header; Verify accepts only when the presented signature equals the one recomputed by sign")
-	c.Rule("R-C06-5", "Basic credentials are split at the first colon only (RFC 7617: the password may contain ':'), never by a full split whose tail is dropped")
+	c.Rule("R-C06-5", "Basic credentials are split at the first colon only (RFC 7617: the password may contain ':'), never by a full split whose tail is dropped; the user and password handed to the credential lookup are pieces of exactly the base64-decoded credential string (no trimming, case folding, replacing or other string transformation between the decoder and the lookup)")
 	c.Rule("R-C06-6", "TTL window: Signer.Verify accepts only if (ttl disabled or -ttl <= age <= ttl) and (not presigned or age <= expire time)")
 	c.NotDecided = []string{
 		"cryptographic correctness of HMAC/SHA-256 and of the third-party jwt library (exp/nbf checks, signature check)",
